@@ -145,6 +145,9 @@ def generate_and_match(env, key, case):
     from PEPit import PEP
     pep = PEP()
     f, p = declare(env, pep, key, case.get('spec', {}))
+    if key == 'nonexp' and case.get('forced', [0])[0] == 0:
+        from PEPit import Point as _P
+        f.v = _P()                   # infimal displacement vector declared: one more documented condition per sample
     if case.get('named'):
         # (a LaTeX-like name with a brace group every third case: legal, and must survive name formatting)
         f.set_name("phi_{1}" if case.get('named') == 'braces' else "phi")
